@@ -245,7 +245,19 @@ func (s *Solver) Check(pc []*Term, q *Term, wantModel bool, vars []*Term) (strin
 			s.intProc = nil
 		}
 	}
-	return s.checkBV(pc, q, wantModel, vars)
+	t1 := time.Now()
+	res, model := s.checkBV(pc, q, wantModel, vars)
+	if d := time.Since(t1); d > 5*time.Second && os.Getenv("VERIF_VERBOSE") != "" {
+		qs := ""
+		if q != nil {
+			qs = q.SMT()
+		}
+		if len(qs) > 600 {
+			qs = qs[:600]
+		}
+		fmt.Fprintf(os.Stderr, "SLOW QUERY %.1fs res=%s pc=%d q=%s\n", d.Seconds(), res, len(pc), qs)
+	}
+	return res, model
 }
 
 func (s *Solver) checkBV(pc []*Term, q *Term, wantModel bool, vars []*Term) (string, map[string]uint64) {
